@@ -6,6 +6,7 @@ ERR-2 every Gaussian sampling shape function asks for the placement with its own
       factor the same placement returned
 ERR-3 every scalar sampler stores a value derived from a sample that passed the rejection test `|sample| > bound` (false arm) against its own `bound` parameter, and the
       sample is not redefined between the test and the store: every stored error is at most `bound` (times the scale) in magnitude
+ERR-4 the `ceil(log2(bound)) < 64` guard of the sampling shape functions is applied to the bound times the placement's scale (the magnitude that is stored as an i64)
 POS-1 an encryption that takes a GLWE / LWE plaintext compares the plaintext's radix with the ciphertext's before moving limbs (entry or a routine it hands the plaintext to)
 RND-1 / RND-9 (shared with C06) noise is injected on every path of every encryption; sigma and bound carry the same scale
 RAD-2 (shared) no call of a radix-asserting operation with operands the guards make different
@@ -166,6 +167,83 @@ def err2(p, res):
         else:
             res.ok("ERR-2", {"fn": f.pretty})
     return n
+
+
+def err4(p, res):
+    """the magnitude guard of a Gaussian sampling shape function (`ceil(log2(x)) < 64`) is applied to the bound the sampler really truncates at - the bound times the placement's
+    scale - not to the unscaled bound: a sample is stored as an i64"""
+    n = 0
+    for f in sorted(p.lib_fns(), key=lambda x: x.uid):
+        if f.kind == "Closure" or not f.blocks or not f.uid.startswith(("poulpy_cpu_ref", "poulpy_cpu_avx", "poulpy_hal")):
+            continue
+        pl = [(bi, t) for bi, t in f.calls() if (f.callee_def(t) or {}).get("n") == "target_limb_and_scale"]
+        logs = [(bi, t) for bi, t in f.calls() if (f.callee_def(t) or {}).get("n") == "log2" and len(t["a"]) == 1]
+        if len(pl) != 1 or not logs:
+            continue
+        flow = Flow(f)
+        sym = Sym(f, flow)
+        bi0 = pl[0][0]
+        # guards: comparisons with an integer constant whose other side derives from a log2 call
+        g = CFG(f)
+        cr = g.can_return()
+        guards = []
+        for b in sorted(g.reach):
+            tt = f.blocks[b]["t"]
+            if not tt or tt["k"] != "Switch":
+                continue
+            arms = [x for _, x in tt["ts"]] + [tt["else"]]
+            if all(x in cr for x in arms):
+                continue
+            for r in flow.op_roots(tt["o"]):
+                if r[0] != "bin":
+                    continue
+                st = f.blocks[r[1]]["s"][r[2]][2]
+                if st.get("op") not in ("Lt", "Le", "Gt", "Ge"):
+                    continue
+                for o in st["o"]:
+                    srcs = _log_sources(f, flow, o)
+                    for lb in srcs:
+                        guards.append((b, lb))
+        if not guards:
+            continue
+        n += 1
+        bad = None
+        for b, lb in guards:
+            arg = f.blocks[lb]["t"]["a"][0]
+            v = sym.operand(arg)
+            if not any(a[0] == "call" and a[1] == f.uid and a[2] == bi0 and tuple(a[3:4]) == (("1",),) for a in pwl_atoms(v)):
+                bad = (v, f.blocks[lb]["t"]["l"])
+        if bad:
+            res.bad("ERR-4", f.pretty, "guard-on-unscaled-bound",
+                    "%s guards the magnitude of `%r` but truncates its samples at that bound times the scale of the noise position (up to 2^(base2k-1)): for a position inside a limb the "
+                    "stored i64 sample can overflow although the guard passed" % (f.pretty, bad[0]), site=f.where(bad[1]))
+        else:
+            res.ok("ERR-4", {"fn": f.pretty})
+    return n
+
+
+def _log_sources(f, flow, op, depth=0):
+    """blocks of `log2` calls the operand derives from (through ceil / casts / arithmetic)"""
+    out = set()
+    if depth > 6 or op[0] not in ("c", "m"):
+        return out
+    for r in flow.op_roots(op):
+        if r[0] == "call":
+            t = f.blocks[r[1]]["t"]
+            nm = (f.callee_def(t) or {}).get("n")
+            if nm == "log2":
+                out.add(r[1])
+            elif nm in ("ceil", "floor", "round", "abs"):
+                for a in t["a"]:
+                    out |= _log_sources(f, flow, a, depth + 1)
+        elif r[0] == "bin":
+            for a in f.blocks[r[1]]["s"][r[2]][2]["o"]:
+                out |= _log_sources(f, flow, a, depth + 1)
+        elif r[0] == "other" and r[1] >= 0:
+            st = f.blocks[r[1]]["s"][r[2]][2]
+            if st["k"] == "Cast":
+                out |= _log_sources(f, flow, st["o"][0], depth + 1)
+    return out
 
 
 def err3(p, res):
@@ -412,6 +490,7 @@ def run(res, tier):
     res.rule("ERR-1", "NoiseInfos::target_limb_and_scale: (limb + 1) * base2k - log2(scale) == k and 0 <= log2(scale) < base2k for every k >= 1 and radix")
     res.rule("ERR-2", "Gaussian sampling shape functions: placement asked with the own radix, noise written to the placement's limb, sigma and bound scaled by the placement's factor")
     res.rule("ERR-3", "scalar samplers store only samples that passed `|sample| > bound` == false against their own bound parameter")
+    res.rule("ERR-4", "the magnitude guard of a Gaussian sampling shape function is applied to the scaled bound the samples are truncated at")
     res.rule("RND-9", "sigma and bound of every Gaussian sampling site carry the same scale factor (shared with C06)")
     res.rule("POS-1", "encryptions taking a GLWE / LWE plaintext compare its radix with the ciphertext's (entry or a routine the plaintext is handed to)")
     res.assumptions = ["rand_distr::Normal samples N(0, sigma); f64 rounding of the sample adds at most 1/2", "every encryption injects the noise exactly once: RND-1 / RND-7 under C06"]
@@ -425,6 +504,8 @@ def run(res, tier):
         res.floor("ERR-2", "Gaussian sampling shape functions", n2, 3)
         n3 = err3(p, res)
         res.floor("ERR-3", "scalar samplers", n3, 5)
+        n4 = err4(p, res)
+        res.floor("ERR-4", "guarded Gaussian sampling shape functions", n4, 4)
         from .c06 import rnd9
         n9 = rnd9(p, res)
         res.floor("RND-9", "Gaussian sampling sites", n9, 6)
